@@ -8,8 +8,10 @@ MODULE = 'Props.C04'
 THEOREMS = ['C04_unregistered_reports_nothing', 'C04_no_crosstalk', 'C04_fresh_twins_distinct_partial',
             'C04_unregistered_twin_refuted', 'C04_padding_collision_refuted']
 LEVEL = 'proof'
-FEATURES = [{'twins'}, {'twinfile'}, {'twins', 'twinfile', 'gen'}, {'twins', 'rec'}, {'twinfile', 'gen'}, {'twins', 'twinfile'}, {'twinfile', 'addmod'}, {'twinfile', 'addmod', 'gen'},
-            {'twinfile', 'regmodes'}, {'twinfile', 'regmodes', 'twins'}, {'twinfile', 'regmodes', 'gen'}]
+FEATURES = [{'twins'}, {'twinfile'}, {'twins', 'twinfile', 'gen'}, {'twins', 'rec'}, {'twinfile', 'gen'}, {'twins', 'twinfile'}, {'twinfile', 'addmod'}, {'twinfile', 'addmod', 'gen'}]
+# every registration entry point (add_function, decorator, add_module with functions/classes/one module for several files,
+# the auto-profiling hook with functions/classes) over value-equal twins
+GLUE = [{'twinfile', 'regmodes'}, {'twinfile', 'regmodes', 'twins'}, {'twinfile', 'regmodes', 'gen'}]
 
 PADCOLLIDE = dict(
     files=[('main.py', '''# fixed: five byte-identical twins at the same line numbers of five files; g registered three times
@@ -29,7 +31,9 @@ def main(P):
 
 
 def run(tier, seed):
-    return e1common.run_property(PROP, MODULE, THEOREMS, tier, seed, 150, 20000, FEATURES, 'hits', extra_cases=[PADCOLLIDE, e1common.FIXED_TWIN, e1common.FIXED_REREG])
+    res = e1common.run_property(PROP, MODULE, THEOREMS, tier, seed, 150, 20000, FEATURES, 'hits', extra_cases=[PADCOLLIDE, e1common.FIXED_TWIN, e1common.FIXED_REREG])
+    res2 = e1common.run_property(PROP, MODULE, THEOREMS, tier, seed + 2, 60, 6000, GLUE, 'hits')
+    return e1common.merge_results(res, res2, 'glue_part')
 
 
 def replay(path):
